@@ -1,8 +1,11 @@
-import sys,json
+#!/usr/bin/env python3
+import sys, json
 for l in sys.stdin:
-    if l.startswith("STATS "):
-        st=json.loads(l[6:])
-        for v in st['violations']: print('VIOL',v['sig'],'|',v['detail'],'|',v['count'])
-        print({k:st[k] for k in st if k not in('violations','samples','counters')})
-        for s in st['samples']: print('  sample:',s)
-    elif l.strip(): print(l.rstrip())
+    if l.startswith('STATS '):
+        s = json.loads(l[6:]); v = s.pop('violations'); sm = s.pop('samples'); s.pop('counters', None)
+        print(s)
+        for x in v: print('VIOL', x)
+        if '-s' in sys.argv:
+            for x in sm: print('SAMPLE', x)
+    else:
+        print(l[:400].rstrip())
